@@ -1,5 +1,6 @@
 import Driver.Util
 import MpcVerif.Model.Proto2
+import MpcVerif.Model.Proto2Int
 import MpcVerif.Model.Proto2Conn
 
 namespace Drv.C02
@@ -62,6 +63,51 @@ def fragOf (a : Array Nat) : Conn.Frag := fun i => a.getD i (2 ^ 40)
 
 def streamStr (b : ByteArray) : String := s!"{b.size}:{hex64 (fnv64 b)}"
 
+/-- `<width>:<signed decimal>,<width>:<signed decimal>,...` -/
+def parseArgVals (s : String) : Option ArgVals :=
+  if s == "-" then some [] else
+    (s.splitOn ",").mapM fun item =>
+      match item.splitOn ":" with
+      | [w, v] => do
+        let w ← w.toNat?
+        let v ← v.toInt?
+        pure (w, v)
+      | _ => none
+
+/-- One session on bit-list inputs: results, and with the ideal OT both complete
+byte streams. -/
+def session (otName tape nw nin nout gates n0 n1 widths : String) (x y : List Bool) : String :=
+  match Aes.bytesOfHex tape, parseCircuit nw nin nout gates, n0.toNat?, n1.toNat?, parseNats widths with
+  | some tape, some c, some n0, some n1, some widths =>
+    let p : Circuit2 := { c := c, n0 := n0, n1 := n1, outWidths := widths }
+    if tape.size < 32 + 16 * (1 + c.nIn) then "bad-op" else
+    let key := (tape.extract 0 32).toList
+    let r := setS (label128 tape 32)
+    let inl := fun i => label128 tape (32 + 16 * (i + 1))
+    match run2 p mkH key r inl x y idealOt with
+    | .error _ => "error"
+    | .ok (gres, eres) =>
+      let res := s!"g={natsStr gres};e={natsStr eres}"
+      if otName != "ideal" then res else
+      -- instrumented run for the transcript (same model functions)
+      let G := c.garble (mkH key) r inl
+      let f1 := garblerFlight1 p key G x
+      match evaluatorRecv1 p f1 with
+      | .error _ => "error"
+      | .ok (key', rows, inLabels, _) =>
+        let sendWires := (List.range n1).map fun i => G.wires.get (n0 + i)
+        let flags := (List.range n1).map fun i => y.getD i false
+        match evaluatorEval p (mkH key') rows inLabels (idealOt sendWires flags) with
+        | .error _ => "error"
+        | .ok outLabels =>
+          match garblerDecode p G 0 outLabels with
+          | .error _ => "error"
+          | .ok bits =>
+            let ge := encodeMsgs (f1 ++ [.data (natToBytesBE (packLE bits))])
+            let eg := encodeMsgs ([.u32 n0, .u32 n1] ++ outLabels.map .label)
+            s!"ge={Aes.hexOfBytes ge};eg={Aes.hexOfBytes eg};" ++ res
+  | _, _, _, _, _ => "bad-op"
+
 /-- `c02 <ot> <tape> <nw> <nin> <nout> <gates> <n0> <n1> <widths> <x> <y>` -/
 def handle (args : List String) : String :=
   match args with
@@ -73,38 +119,13 @@ def handle (args : List String) : String :=
       if p.acceptsOtRange o c then "accept" else "reject"
     | _, _, _, _ => "bad-op"
   | [otName, tape, nw, nin, nout, gates, n0, n1, widths, x, y] =>
-    match Aes.bytesOfHex tape, parseCircuit nw nin nout gates, n0.toNat?, n1.toNat?, parseNats widths with
-    | some tape, some c, some n0, some n1, some widths =>
-      let p : Circuit2 := { c := c, n0 := n0, n1 := n1, outWidths := widths }
-      if tape.size < 32 + 16 * (1 + c.nIn) then "bad-op" else
-      let key := (tape.extract 0 32).toList
-      let r := setS (label128 tape 32)
-      let inl := fun i => label128 tape (32 + 16 * (i + 1))
-      let x := parseBits x
-      let y := parseBits y
-      match run2 p mkH key r inl x y idealOt with
-      | .error _ => "error"
-      | .ok (gres, eres) =>
-        let res := s!"g={natsStr gres};e={natsStr eres}"
-        if otName != "ideal" then res else
-        -- instrumented run for the transcript (same model functions)
-        let G := c.garble (mkH key) r inl
-        let f1 := garblerFlight1 p key G x
-        match evaluatorRecv1 p f1 with
-        | .error _ => "error"
-        | .ok (key', rows, inLabels, _) =>
-          let sendWires := (List.range n1).map fun i => G.wires.get (n0 + i)
-          let flags := (List.range n1).map fun i => y.getD i false
-          match evaluatorEval p (mkH key') rows inLabels (idealOt sendWires flags) with
-          | .error _ => "error"
-          | .ok outLabels =>
-            match garblerDecode p G 0 outLabels with
-            | .error _ => "error"
-            | .ok bits =>
-              let ge := encodeMsgs (f1 ++ [.data (natToBytesBE (packLE bits))])
-              let eg := encodeMsgs ([.u32 n0, .u32 n1] ++ outLabels.map .label)
-              s!"ge={Aes.hexOfBytes ge};eg={Aes.hexOfBytes eg};" ++ res
-    | _, _, _, _, _ => "bad-op"
+    session otName tape nw nin nout gates n0 n1 widths (parseBits x) (parseBits y)
+  | ["int", otName, tape, nw, nin, nout, gates, n0, n1, widths, xs, ys] =>
+    -- inputs as the integers handed to circuit.Garbler / circuit.Evaluator:
+    -- `<width>:<signed decimal>,...` per flattened member (Model/Proto2Int.lean)
+    match parseArgVals xs, parseArgVals ys with
+    | some xs, some ys => session otName tape nw nin nout gates n0 n1 widths (encodeArg xs) (encodeArg ys)
+    | _, _ => "bad-op"
   | [otName, tape, nw, nin, nout, gates, n0, n1, widths, x, y, _sched, readsGE, readsEG] =>
     -- `c02c`: a session over two connections (Model/Proto2Conn.lean).  With the
     -- ideal OT the model replays the read fragmentation the harness transport
